@@ -127,7 +127,12 @@ def g3_threading(chk, op, rule, options=OPTIONS):
     for call in calls_in(entry):
         for cal in resolve_callees(repo, entry, call.func):
             if cal.key == IO_OPEN:
-                ok = any(k.arg is None and isinstance(k.value, ast.Name) and k.value.id == "backend_options" for k in call.keywords)
+                for k in call.keywords:
+                    if k.arg is None:
+                        v = Flow(entry).expand(k.value)
+                        t = norm(v)
+                        if t in ("backend_options", "dict(backend_options)", "backend_options.copy()", "{**backend_options}", "copy.copy(backend_options)", "copy.deepcopy(backend_options)"):
+                            ok = True
     chk.require(ok, rule, op.where(entry), "open_alos2 forwards **backend_options to io.open", "open_alos2 does not forward **backend_options unchanged", key="open_alos2->io.open:**backend_options")
 
 
